@@ -200,16 +200,33 @@ def ev_match(obs: tuple, exp: Ev) -> bool:
     return _freeze(obs[1]) == _freeze(exp.data)
 
 
+def _split(tr: list[Any]) -> tuple[list[Any], list[Any], list[int]]:
+    """(data events, log events, for each log: number of data events before it)."""
+    data, logs, before = [], [], []
+    for e in tr:
+        k = e.kind if isinstance(e, Ev) else e[0]
+        if k == "log":
+            logs.append(e)
+            before.append(len(data))
+        else:
+            data.append(e)
+    return data, logs, before
+
+
 def compare(obs: list[tuple], exp: list[Ev], *, mode: str, min_batches: int = 0) -> str | None:
     """Return None when acceptable, else a description of the first mismatch.
 
-    mode 'exact'  : obs must equal one variant of exp.
-    mode 'prefix' : obs must be a prefix of one variant and either be complete
-                    or contain at least ``min_batches`` batches.
-    A trailing ('cb-exc',) in obs (client callback raised) turns the comparison
-    into a prefix check of what was seen before it.
+    The trace is compared as the property states it: the ordered sequence of non-log events (header, batches,
+    result / error / end) and the ordered sequence of log messages are each compared with the model, and every log
+    must be delivered no later (relative to the data events) than the model says - i.e. before the result or batch it
+    precedes.  A transport may deliver a log *earlier* (HTTP reads a whole turn before returning its first batch).
+
+    mode 'exact'  : both sequences must equal one variant of exp.
+    mode 'prefix' : both must be prefixes of one variant; the data sequence must be complete or contain at least
+                    ``min_batches`` batches; every log the model places before the last observed data event must be there.
+    A ('cb-exc',) in obs (client callback raised) turns the comparison into a prefix check of what preceded it.
     """
-    obs = list(obs)
+    obs = [o for o in obs if o[0] in ("log", "header", "batch", "result", "error", "end", "cb-exc")]
     cb = None
     for i, o in enumerate(obs):
         if o[0] == "cb-exc":
@@ -222,31 +239,51 @@ def compare(obs: list[tuple], exp: list[Ev], *, mode: str, min_batches: int = 0)
         obs = obs[:cb]
         mode = "prefix"
         min_batches = 0
+    od, ol, ob = _split(obs)
     best = None
     for var in variants(exp):
-        n = min(len(obs), len(var))
-        bad = None
+        ed, el, eb = _split(var)
+        why = None
+        # ---- data sequence
+        n = min(len(od), len(ed))
         for i in range(n):
-            if not ev_match(obs[i], var[i]):
-                bad = i
+            if not ev_match(od[i], ed[i]):
+                why = f"data event {i}: observed {_short(od[i])} expected {_short((ed[i].kind, ed[i].data))}"
                 break
-        if bad is not None:
-            d = f"event {bad}: observed {_short(obs[bad])} expected {_short((var[bad].kind, var[bad].data))}"
-            best = best or d
-            continue
-        if len(obs) > len(var):
-            best = best or f"extra event {len(var)}: observed {_short(obs[len(var)])} after the expected trace ended"
-            continue
-        if len(obs) == len(var):
+        if why is None and len(od) > len(ed):
+            why = f"extra data event {len(ed)}: observed {_short(od[len(ed)])} after the expected trace ended"
+        if why is None and len(od) < len(ed):
+            nxt = _short((ed[len(od)].kind, ed[len(od)].data))
+            if mode == "exact":
+                why = f"trace ended after {len(od)} data events; expected next {nxt}"
+            else:
+                nb = sum(1 for o in od if o[0] == "batch")
+                if nb < min_batches:
+                    why = f"only {nb} batches observed, {min_batches} requested; next expected {nxt}"
+        # ---- log sequence
+        if why is None:
+            n = min(len(ol), len(el))
+            for i in range(n):
+                if not ev_match(ol[i], el[i]):
+                    why = f"log {i}: observed {_short(ol[i])} expected {_short((el[i].kind, el[i].data))}"
+                    break
+        if why is None and len(ol) > len(el):
+            why = f"extra log {len(el)}: {_short(ol[len(el)])}"
+        if why is None:
+            # logs the model places before an observed data event must have been delivered, and before it
+            for i in range(len(el)):
+                must = eb[i] < len(od) or (mode == "exact")
+                if i >= len(ol):
+                    if must:
+                        why = f"log {i} {_short(el[i].data)} was never delivered (expected before data event {eb[i]})"
+                    break
+                if ob[i] > eb[i]:
+                    why = (f"log {i} {_short(el[i].data)} delivered after data event {ob[i] - 1} but it was emitted before "
+                           f"data event {eb[i]}")
+                    break
+        if why is None:
             return None
-        # obs is a strict prefix
-        if mode == "exact":
-            best = best or f"trace ended after {len(obs)} events; expected next {_short((var[len(obs)].kind, var[len(obs)].data))}"
-            continue
-        nb = sum(1 for o in obs if o[0] == "batch")
-        if nb >= min_batches:
-            return None
-        best = best or f"only {nb} batches observed, {min_batches} requested; next expected {_short((var[len(obs)].kind, var[len(obs)].data))}"
+        best = best or why
     return best or "no variant"
 
 
